@@ -327,3 +327,74 @@ Proof.
     + rewrite Epvs, Ep. cbn [join rebuild fold_left]. reflexivity.
     + rewrite Ej. rewrite <- Ej. rewrite (F1 NEp), AP. reflexivity.
 Qed.
+
+(* ---------- whatever the parser accepts is structurally valid ---------- *)
+Lemma NoDup_keys_filter : forall (m : smap) f, NoDup (map fst m) -> NoDup (map fst (filter f m)).
+Proof.
+  induction m as [|[k x] r IH]; intros f ND; [constructor|].
+  cbn in ND. inv ND. cbn [filter]. destruct (f (k, x)); [|now apply IH].
+  cbn. constructor; [|now apply IH].
+  intros I. apply H1. apply in_map_iff in I. destruct I as [p [E I]]. apply filter_In in I.
+  apply in_map_iff. exists p. tauto.
+Qed.
+
+Lemma NoDup_keys_sset : forall m k x, NoDup (map fst m) -> NoDup (map fst (sset m k x)).
+Proof.
+  intros m k x ND. unfold sset. cbn. constructor; [|now apply NoDup_keys_filter].
+  intros I. apply in_map_iff in I. destruct I as [p [E I]]. unfold sremove in I. apply filter_In in I.
+  destruct I as [_ I]. rewrite E in I. rewrite bytes_eqb_refl in I. discriminate.
+Qed.
+
+Lemma In_sset : forall m k x p, In p (sset m k x) -> p = (k, x) \/ In p m.
+Proof.
+  intros m k x p [I|I]; [left; now symmetry|]. right. unfold sremove in I. apply filter_In in I. tauto.
+Qed.
+
+Lemma add_mvs_wf : forall l s v acc m, add_mvs s v l acc = Some m ->
+  NoDup (map fst acc) -> ~ In (s, v) acc -> NoDup (map fst m) /\ ~ In (s, v) m.
+Proof.
+  induction l as [|[k x] r IH]; intros s v acc m H ND NI.
+  - inv H. auto.
+  - cbn [add_mvs] in H. destruct (smem acc k); [discriminate|].
+    destruct (bytes_eqb k s && (x =? v)) eqn:C; [discriminate|].
+    apply IH in H; auto.
+    + now apply NoDup_keys_sset.
+    + intros I. apply In_sset in I. destruct I as [I|I]; [|tauto]. inv I.
+      rewrite bytes_eqb_refl, N.eqb_refl in C. discriminate.
+Qed.
+
+Lemma add_pvs_wf : forall l mvm acc p, add_pvs mvm l acc = Some p ->
+  NoDup (map fst acc) -> (forall k, In k (map fst acc) -> ~ In k (map fst mvm)) ->
+  NoDup (map fst p) /\ (forall k, In k (map fst p) -> ~ In k (map fst mvm)).
+Proof.
+  induction l as [|[k x] r IH]; intros mvm acc p H ND Dj.
+  - inv H. auto.
+  - cbn [add_pvs] in H. destruct (smem acc k); [discriminate|].
+    destruct (smem mvm k) eqn:M; [discriminate|]. apply smem_false in M.
+    apply IH in H; auto.
+    + now apply NoDup_keys_sset.
+    + intros k' I. apply keys_sset in I. destruct I as [->|I]; auto.
+Qed.
+
+Definition wire_wf (v : svec) : Prop :=
+  NoDup (map fst (s_mv v)) /\ NoDup (map fst (s_pv v)) /\
+  (forall k, In k (map fst (s_pv v)) -> ~ In k (map fst (s_mv v))) /\
+  ~ In (s_src v, s_ver v) (s_mv v).
+
+Theorem wire_parse_wellformed : forall str v lg, extract_hlv str = Some (v, lg) -> wire_wf v.
+Proof.
+  intros str v lg H. unfold extract_hlv in H.
+  repeat match type of H with
+         | match ?x with _ => _ end = Some _ => destruct x eqn:?; try discriminate
+         end;
+  inv H; unfold wire_wf; cbn [s_mv s_pv s_src s_ver];
+  match goal with
+  | A : add_mvs _ _ _ [] = Some _ |- _ =>
+      apply add_mvs_wf in A; [destruct A as [A1 A2] | constructor | intros []]
+  end;
+  try match goal with
+  | A : add_pvs _ _ [] = Some _ |- _ =>
+      apply add_pvs_wf in A; [destruct A as [B1 B2] | constructor | intros ? []]
+  end;
+  repeat split; auto; try constructor; try (intros ? []).
+Qed.
